@@ -88,7 +88,7 @@ def run(pid, tier):
                               f"TLC: {formula} violated in SeqTestMC for {c['name']} ({mode})",
                               {"config": c["name"], "mode": mode, "formula": formula, "counterexample": cex[:4000]})
             if kw["any_sample"]:
-                ss = parse_samples(results[0])
+                ss = set().union(*[parse_samples(r) for r in results])
                 samples_by_key[(c["N"], c["u"])] = ss
                 if not ss:
                     raise core.MachineryError(f"no behaviours generated for {c['name']}")
@@ -106,7 +106,8 @@ def run(pid, tier):
     for ci, c in enumerate(cfgs):
         cc = dict(c)
         if cc["N"]:
-            cc["N"] = 64 if tier == "quick" else 256
+            # mostly large populations (no boundary convention in play), some small ones (null mean driven to 0 / u)
+            cc["N"] = rng.choice([64, 64, 12, 20]) if tier == "quick" else rng.choice([256, 64, 12, 20, 30])
             cc["name"] += "-long"
         ss = seqtest.random_walk_samples(cc, rng, nwalk if c["ro"] else 2, length)
         # keep walks apart: one walk id per chain
@@ -117,6 +118,29 @@ def run(pid, tier):
                 w += 1
             r["walk"] = f"r{ci}:w{w}"
         recs += rr
+    # non-dyadic observations (0.1, 0.3, 0.7, ... incl. long runs of one value): judged only by the range clauses (C13)
+    # and the not-a-number / [0,1] clauses (C11) - float rounding at the conventions' boundaries is not a TLA+ matter
+    if pid in ("C13", "C11"):
+        ndvals = [0.1, 0.3, 0.6, 0.7, 0.2, 0.9]
+        for ci, c in enumerate(cfgs):
+            if c["estim"] not in ("shrink", "shrinkf", "agrapa", "agrapag", "fixed", "optcomp") or not c["ro"]:
+                continue
+            cc = dict(c, name=c["name"] + "-nd")
+            if cc["N"]:
+                cc["N"] = 40
+            walks = []
+            for w in range(3 if tier == "quick" else 12):
+                v = rng.choice(ndvals) * float(c["u"])
+                run = rng.randint(3, 9)
+                xs = [seqtest.F(v)] * run + [seqtest.F(rng.choice(ndvals) * float(c["u"])) for _ in range(rng.randint(1, 6))]
+                walks += [tuple(xs[:j]) for j in range(1, len(xs) + 1)]
+            rr = seqtest.code_records(cc, walks, 20, f"n{ci}")
+            w = 0
+            for r in rr:
+                if len(r["x"]) == 1:
+                    w += 1
+                r["walk"] = f"n{ci}:w{w}"
+            recs += rr
     if pid == "C12":
         recs += seqtest.conv_records(rng, 0)
         small = {k: [s for s in v if len(s) >= 2] for k, v in samples_by_key.items()}
@@ -125,6 +149,7 @@ def run(pid, tier):
     for c in cfgs:
         cfg_by_name[c["name"]] = c
         cfg_by_name[c["name"] + "-long"] = c
+        cfg_by_name[c["name"] + "-nd"] = c
     rejects, stats = core.validate_traces("Trace_SeqTest", recs)
     rep.add_trace_stats("Trace_SeqTest", stats)
     byid = {r["tid"]: r for r in recs}
@@ -132,7 +157,10 @@ def run(pid, tier):
         r = byid[tid]
         if "nocontext" in clauses:
             raise core.MachineryError(f"trace record {tid} arrived without its prefix chain")
+        nd = r.get("cfgname", "").endswith("-nd")
         for cl in clauses:
+            if nd and not (cl.startswith("range:") or cl.startswith("unit:") or cl.startswith("unitp:") or cl.startswith("exc:")):
+                continue
             if clause_belongs(pid, cl):
                 site = r.get("site") or (seqtest.site_of(cfg_by_name[r["cfgname"]]) if r["cfgname"] in cfg_by_name
                                          else r["cfgname"])
